@@ -549,6 +549,38 @@ func customC14(t *testing.T, e *mc.Explorer) *mc.ShardResult {
 		}
 	}
 	res.Extra["length_sweep_histories"] = swept
+	// ---- residue of a killed writer: a Set that dies (real SIGKILL of a child process) at each of its file-system
+	// operations leaves the directory in some intermediate shape; a backend opened on it afterwards must still be a
+	// map: the key holds its old or its new value, everything else — listing included — is as before.
+	residues := 0
+	for ri, rk := range []string{"http://example.com/r#0", c15LongKey} {
+		for _, b := range []string{"fscache", "fscache-enc"} {
+			for at := 0; at < 12; at++ {
+				if (ri*24+at)%e.Shards != e.Shard {
+					continue
+				}
+				m := c14Residue(b, rk, at)
+				if m == "skip" {
+					break // the Set has fewer operations than that
+				}
+				residues++
+				res.Executions++
+				res.Transitions += 4
+				if m != "" {
+					sig := "after a killed Set: " + c14Signature(c14Scenario{Backend: b}, m)
+					if v, ok := viol[sig]; ok {
+						v.Count++
+					} else {
+						detail, _ := json.Marshal(map[string]any{"residue": map[string]any{"backend": b, "key": rk, "at": at}})
+						viol[sig] = &mc.Violation{Property: "C14", Signature: sig, Count: 1, Shard: e.Shard, Choices: []int{},
+							Message: fmt.Sprintf("backend %s, key %s, writer killed at its file-system operation #%d: %s", b, keyName(rk), at, m),
+							Trace:   []mc.Pt{{Label: "replay", Desc: string(detail)}}}
+					}
+				}
+			}
+		}
+	}
+	res.Extra["killed_writer_residues"] = residues
 	sigs := make([]string, 0, len(viol))
 	for s := range viol {
 		sigs = append(sigs, s)
@@ -603,15 +635,59 @@ func c14Signature(sc c14Scenario, mismatch string) string {
 	return fmt.Sprintf("%s: %s: %s", b, strings.TrimSpace(what), cls)
 }
 
+// c14Residue: other keys are stored, a child process dies inside Set(key) at operation #at, a fresh instance is
+// compared with the map. Returns "", a mismatch, or "skip" when the child survived (no such operation).
+func c14Residue(backend, key string, at int) string {
+	in, err := c14Open(backend)
+	if err != nil {
+		return "open failed: " + err.Error()
+	}
+	defer in.close()
+	vals := c14Values("quick")
+	other := key + "-sibling"
+	model := map[string][]byte{}
+	keys := []string{key, other, "a"}
+	for _, op := range []c14Op{{"set", 0, 0}, {"set", 1, 1}, {"set", 2, 0}} {
+		if m := c14Apply(in, model, keys, vals, op); m != "" {
+			return m
+		}
+	}
+	if msg := c15Child(c15ChildSpec{Mode: "set", Dir: in.dir, VLen: 4097, Enc: backend == "fscache-enc", At: at, Key: key}); msg != "" {
+		if strings.Contains(msg, "survived") {
+			return "skip"
+		}
+		return "harness: child: " + msg
+	}
+	if err := in.reopen(); err != nil {
+		return "reopen after the killed Set failed: " + err.Error()
+	}
+	if got, err := in.conn.Get(key); err == nil && bytes.Equal(got, bytes.Repeat([]byte("N"), 4097)) {
+		model[key] = got // the new value made it
+	} else if err != nil && backend == "fscache-enc" && !errors.Is(err, driver.ErrNotExist) {
+		return "" // an undecryptable residue is rejected (C17); nothing more to compare for this key
+	}
+	return c14Compare(in, model, keys)
+}
+
 func replayC14(t *testing.T, v *mc.Violation) bool {
 	var d struct {
 		Scenario c14Scenario `json:"scenario"`
 		Path     []c14Op     `json:"path"`
+		Residue  *struct {
+			Backend string `json:"backend"`
+			Key     string `json:"key"`
+			At      int    `json:"at"`
+		} `json:"residue"`
 	}
 	for _, p := range v.Trace {
 		if p.Label == "replay" {
 			_ = json.Unmarshal([]byte(p.Desc), &d)
 		}
+	}
+	if d.Residue != nil {
+		m := c14Residue(d.Residue.Backend, d.Residue.Key, d.Residue.At)
+		fmt.Printf("  | backend %s key %s writer killed at operation #%d\n  | -> %s\n", d.Residue.Backend, keyName(d.Residue.Key), d.Residue.At, m)
+		return m != "" && m != "skip"
 	}
 	m, _, _ := c14Run(d.Scenario, d.Path, "quick")
 	fmt.Printf("  | backend %s keys %v path %v\n  | -> %s\n", d.Scenario.Backend, c14KeyNames(d.Scenario), d.Path, m)
